@@ -205,7 +205,19 @@ def install():
 
     def bookResources(self):
         d0 = self.doneEffort
+        slot = self.currentSlotIdx
+        n0 = len(EVENTS)
+        before = {}
+        for r in self.project.resources:
+            rs = r.data[self.scenarioIdx] if r.data else None
+            if rs is not None and r.leaf():
+                before[r.fullId] = (rs, rs.slotSecondsUsed.get(slot))
         orig_bookResources(self)
+        seen = {e.get("res") for e in EVENTS[n0:] if e.get("ev") in ("Book", "OffsetMark")}
+        for rid, (rs, u0) in before.items():
+            u1 = rs.slotSecondsUsed.get(slot)
+            if u1 != u0 and rid not in seen:
+                emit("OffsetMark", sc=self.scenarioIdx, task=self.property.fullId, res=rid, slot=slot, used=u1)
         if self.doneEffort != d0:
             emit(
                 "Credit",
